@@ -8,6 +8,12 @@ VERIF = os.path.dirname(os.path.dirname(os.path.abspath(__file__)))
 
 # per-property manifest texts: (technique, level text, level note)
 TEXT = {
+    "C04": ("Hypothesis PBT + exhaustive small domain: set-algebra oracle over presented coordinates, payload identity",
+            "Generated k<=4 operand sets (leaf / 2-level, owned / unowned, C / U format, int and tuple coordinates of equal "
+            "and mixed arity) checked against coordinate-set algebra, payload identity (is), fresh defaults, masks, "
+            "re-iteration and operand/rank-list immutability; all pairs of leaf fibers over shape<=2 (quick) or <=3 "
+            "(thorough) enumerated completely.",
+            "Trusts the builders and the per-coordinate state model; shapes<=7, k<=4; U format only on owned fibers."),
     "C12": ("Hypothesis PBT: representation-fuzzed and single-leaf-edited tree pairs/triples vs dict content model",
             "Generated pairs/triples of trees derived from one content (equal by construction, or differing in one leaf) "
             "compared with an independent point->value model; no exhaustive claim.",
